@@ -160,13 +160,13 @@ def absolute_positions(ck, rule):
 CONVERSIONS = {"int", "float", "round", "abs", "floor", "ceil", "trunc", "rint", "around", "max", "min", "clip"}
 
 
-def stored_unconverted(ck, rule):
+def stored_unconverted(ck, rule, mods=None):
     """the position classes keep the coordinates, offsets and scores their constructors receive: no int()/round()/abs() on the
     way in (label positions and offsets of real maps are decimals; a truncated offset no longer equals
     query position - (reference position - seed), and truncated distances tie where the nearest label is unique)"""
     ck.clause(rule, "position objects store coordinates and offsets as given (no rounding / truncation in their constructors)")
     p = ck.ctx.p
-    mods = ("src.alignment.alignment_position", "src.correlation.optical_map", "src.correlation.peak")
+    mods = mods or ("src.alignment.alignment_position", "src.correlation.optical_map", "src.correlation.peak")
     n = 0
     hit = False
     for c in p.classes.values():
@@ -191,7 +191,7 @@ def stored_unconverted(ck, rule):
                                              f"{c.name} stores a converted copy of its `{sorted(uses)[0]}` argument: decimal coordinates / "
                                              "offsets are changed on the way in", found=ast.unparse(node)[:120],
                                              required=f"self.{node.targets[0].attr} = {sorted(uses)[0]}")
-    ck.floor(f"{rule} constructor stores inspected", n, 15)
+    ck.floor(f"{rule} constructor stores inspected", n, 15 if len(mods) == 3 else 10)
     if not hit:
         ck.ok(rule, "position classes", "src/alignment/alignment_position.py", f"{n} constructor stores: none converts its argument")
 
@@ -199,7 +199,8 @@ def stored_unconverted(ck, rule):
 def run(ck):
     ctx = ck.ctx
     p = ctx.p
-    stored_unconverted(ck, "C12.7")
+    # (a seed that was altered when the Peak was built is another seed, not another pairing: peak.py is judged under C16.8 / C05.13)
+    stored_unconverted(ck, "C12.7", mods=("src.alignment.alignment_position", "src.correlation.optical_map"))
     ck.clause("C12.1", "reference and candidate windows are closed intervals widened by maxDistance")
     ck.clause("C12.2", "offset = query position - (reference position - seed)")
     ck.clause("C12.3", "unpaired = complement (by siteId) of the returned de-duplicated pairs over the same position lists")
